@@ -74,6 +74,28 @@ Theorem C18_exchange_round w0 sc w1 l :
        WF (nd_view n) /\ proj (nd_view n) = pjoin_all (all_views0 w0)).
 Proof. exact (exchange_round w0 sc w1 l). Qed.
 
+(** the hypotheses on the world hold after ANY history: in every world reachable from the empty one by any schedule
+    (starts, joins, losses, crashes, restarts, leaves, force-downs, failure detection ...) the nodes are keyed by
+    their own address and every view - of a node, of a GossipMessage in flight - is well-formed in the sense of C17 *)
+Theorem C18_reachable_well_formed sc w l :
+  run empty_world sc = Some (w, l) ->
+  (forall a n, w_nodes w !! a = Some n -> nd_addr n = a) /\
+  (forall a n, w_nodes w !! a = Some n -> WF (nd_view n)) /\
+  (forall p, p ∈ w_net w -> WF (p_view p)).
+Proof. exact (reachable_inv sc w l). Qed.
+
+(** ... so: after any history that leaves nothing in flight, any round in which every view reaches every node ends
+    with every membership equal to the join of the memberships the round started with *)
+Theorem C18_exchange_round_after_any_history hist w0 l0 sc w1 l :
+  run empty_world hist = Some (w0, l0) -> w_net w0 = [] ->
+  forallb (fun p => round_step (snd p)) sc = true ->
+  run w0 sc = Some (w1, l) ->
+  exists aw1, arun (annotate w0) sc = Some (aw1, l) /\ erase aw1 = w1 /\
+    (all_reached w0 aw1 ->
+     forall a n, w_nodes w1 !! a = Some n ->
+       WF (nd_view n) /\ proj (nd_view n) = pjoin_all (all_views0 w0)).
+Proof. exact (exchange_round_reachable hist w0 l0 sc w1 l). Qed.
+
 (** ** 3. The fixpoint: gossip is suppressed when the vectors are Equal *)
 
 (** exactly when a gossip round (= broadcastViewOnce) sends to [t]: t is a seed or a member address other than
@@ -168,6 +190,26 @@ Theorem C18_c_two_leaders_refuted :
      existsb (fun n => existsb (fun s => (ns_status s =? st_suspect)%Z && is_running w2 (ns_addr s)) (states (nd_view n))) (nodes_of w2)) = true.
 Proof. exact wc_check. Qed.
 
+(** (c2) ... NOR IS A NEW INCARNATION: ONE LOST MESSAGE, PERMANENT DIVERGENCE.  Failure detection off.  j joins the seed
+    s, crashes, restarts under the same NodeID and joins s again: s knew (2,2), the new process is at (3,3).  The view s
+    broadcast while accepting the join reaches j; the one GossipMessage carrying (3,3) to s is lost.  The restarted j's
+    own version-vector entry starts at 1 again, the value it already had, so both vectors are Equal: in 30 fair
+    rounds nothing is published, j never sends, and s keeps j at (2,2) while j is at (3,3). *)
+Theorem C18_c2_new_incarnation_not_propagated_refuted :
+  exists w1 l1 w2 logs,
+    run empty_world (faults_of wh_play 30) = Some (w1, l1) /\
+    fair_rounds w1 1250 50 (rounds_of wh_play 30) = Some (w2, logs) /\
+    ((length (rounds_of wh_play 30) =? 30)%nat && forallb quiet logs &&
+     match w_nodes w2 !! ad1, w_nodes w2 !! ad2 with
+     | Some s, Some j =>
+         bool_decide (inc_of (nd_self j) = (3%Z, 3)) &&
+         bool_decide (proj (nd_view j) !! [106] = Some (3%Z, 3)) &&
+         bool_decide (proj (nd_view s) !! [106] = Some (2%Z, 2)) &&
+         bool_decide (vw_vv (nd_view s) = vw_vv (nd_view j))
+     | _, _ => false
+     end) = true.
+Proof. exact wh_check. Qed.
+
 (** (d) A LEAVE IS NEVER ANNOUNCED.  For every node: handling the LeaveRequest does not touch the view (the Leaving
     status is set on the actor's own NodeState only), and every GossipMessage it sends carries exactly that view. *)
 Theorem C18_d_leave_not_announced n :
@@ -210,6 +252,29 @@ Theorem C18_e_restart_shadowed_refuted :
      end) = true.
 Proof. exact we_check. Qed.
 
+(** (e2) RESTART UNDER A FRESH NodeID (the default configuration draws a new uuid per process).  j joins the seed s
+    (timeout 300), crashes, and the process restarts at the same address as "k".  s then lists two members with one
+    address, and ClusterView.MemberByAddress returns whichever the Go map iteration yields.  In THIS execution it is
+    always the predecessor's entry (the pick is the [choice] input of every SDeliver; on the real code it is made at
+    random at every delivery, so this witness is not replayed deterministically - the harness observes the defect in
+    generated scenarios): after 40 fair rounds the dead j is still listed by s with a LastSeen of the last round
+    (3100), the running k (LastSeen 1110) is removed by s in every one of the last 10 rounds, and k itself lists its
+    predecessor (a node never times out a member carrying its own address). *)
+Theorem C18_e2_fresh_id_restart_refuted :
+  exists w1 l1 w2 logs,
+    run empty_world (faults_of wg_play 40) = Some (w1, l1) /\
+    fair_rounds w1 1150 50 (rounds_of wg_play 40) = Some (w2, logs) /\
+    ((length (rounds_of wg_play 40) =? 40)%nat &&
+     forallb (removal_of_running w2) (skipn 30 logs) &&
+     match w_nodes w2 !! ad1, w_nodes w2 !! ad2 with
+     | Some s, Some k =>
+         bool_decide (nd_id k = [107]) && lists_id s [106] && lists_id k [106] &&
+         bool_decide (ns_seen <$> (vw_members (nd_view s) !! [106]) = Some 3100%Z) &&
+         bool_decide (ns_seen <$> (vw_members (nd_view s) !! [107]) = Some 1110%Z)
+     | _, _ => false
+     end) = true.
+Proof. exact wg_check. Qed.
+
 (** (f) part of the mechanism of (a): a member learned through a merge is stored with the LastSeen of the sender's
     copy.  When the sender of a GossipMessage is not itself a member of the local view (so no LastSeen refresh
     happens) an id the local view lacks is adopted verbatim from the received view, LastSeen included - for the
@@ -229,7 +294,8 @@ Example C18_exactly_one_leader_example :
   (forall n, n ∈ nodes_of ex_world -> forall a, a ∈ up_addrs (nd_view n) <-> a ∈ map nd_addr (nodes_of ex_world)) /\
   converged ex_world.
 Proof.
-  split; [vm_compute; discriminate|]. split; [apply (proj1 (bool_decide_eq_true (NoDup (map nd_addr (nodes_of ex_world))))); vm_compute; reflexivity|]. split; [vm_compute; reflexivity|].
+  split; [intros E; apply (f_equal (@length node)) in E; vm_compute in E; discriminate|].
+  split; [apply (proj1 (bool_decide_eq_true (NoDup (map nd_addr (nodes_of ex_world))))); vm_compute; reflexivity|]. split; [vm_compute; reflexivity|].
   split; [|apply converged_b_sound; vm_compute; reflexivity].
   assert (H : forallb (fun n => subset_b (up_addrs (nd_view n)) (map nd_addr (nodes_of ex_world)) &&
                                 subset_b (map nd_addr (nodes_of ex_world)) (up_addrs (nd_view n))) (nodes_of ex_world) = true)
@@ -251,13 +317,13 @@ Example C18_exchange_round_example :
 Proof.
   destruct (world_ok_b_sound ex_islands) as (H1 & H2 & H3); [vm_compute; reflexivity|].
   split; [exact H1|]. split; [exact H2|]. split; [exact H3|]. split; [vm_compute; reflexivity|]. split; [vm_compute; reflexivity|].
-  destruct (arun (annotate ex_islands) ex_round) as [[aw1 l]|] eqn:E; [|vm_compute in E; discriminate].
-  exists aw1, l. split; [reflexivity|].
   assert (Hc : match arun (annotate ex_islands) ex_round with
                | Some (aw, _) => all_reached_b ex_islands aw &&
                    bool_decide (map (fun n => map ns_id (states (nd_view n))) (nodes_of (erase aw)) = [[[97]; [115]; [120]]; [[97]; [115]; [120]]; [[97]; [115]; [120]]])
                | None => false end = true) by (vm_compute; reflexivity).
-  rewrite E in Hc. apply andb_true_iff in Hc as [Ha Hb]. split; [apply all_reached_b_sound; exact Ha|apply bool_decide_eq_true in Hb; exact Hb].
+  destruct (arun (annotate ex_islands) ex_round) as [[aw1 l]|] eqn:E; [|discriminate Hc].
+  exists aw1, l. split; [reflexivity|].
+  apply andb_true_iff in Hc as [Ha Hb]. split; [apply all_reached_b_sound; exact Ha|apply bool_decide_eq_true in Hb; exact Hb].
 Qed.
 
 (** the hypotheses of C18_fixpoint and of the stability theorem: two seeds that bootstrapped alone and found each
@@ -268,11 +334,46 @@ Proof.
   vm_compute. reflexivity.
 Qed.
 
+(** ... and the gossip tick of a node of that world is enabled, publishes nothing and leaves a quiescent world *)
+Example C18_fixpoint_stable_example :
+  fault_free (SGossipTick ad1) = true /\
+  exists w' l, step_world ex_two 2000 (SGossipTick ad1) = Some (w', l) /\ l = [] /\ quiescent w'.
+Proof.
+  split; [reflexivity|].
+  assert (Hc : match step_world ex_two 2000 (SGossipTick ad1) with
+               | Some (w', l) => match l with [] => true | _ :: _ => false end && quiescent_b w'
+               | None => false end = true) by (vm_compute; reflexivity).
+  destruct (step_world ex_two 2000 (SGossipTick ad1)) as [[w' l]|]; [|discriminate Hc].
+  exists w', l. split; [reflexivity|]. apply andb_true_iff in Hc as [H1 H2].
+  split; [destruct l; [reflexivity|discriminate]|apply quiescent_b_sound; exact H2].
+Qed.
+
+(** the hypotheses of C18_gossip_is_join: the island of a ({a}) receives the view of s ({s,x}) *)
+Example C18_gossip_is_join_example :
+  exists n v, w_nodes ex_islands !! ad2 = Some n /\ (nd_view <$> w_nodes ex_islands !! ad1) = Some v /\
+    WF (nd_view n) /\ WF v /\
+    map ns_id (states (nd_view n)) = [[97]] /\ map ns_id (states v) = [[115]; [120]] /\
+    map ns_id (states (nd_view (fst (fst (handle_gossip n ad1 v 1050 None))))) = [[97]; [115]; [120]].
+Proof.
+  destruct (w_nodes ex_islands !! ad2) as [n|] eqn:E2; [|vm_compute in E2; discriminate].
+  destruct (w_nodes ex_islands !! ad1) as [m|] eqn:E1; [|vm_compute in E1; discriminate].
+  exists n, (nd_view m). split; [reflexivity|]. split; [reflexivity|].
+  assert (Hc : match w_nodes ex_islands !! ad2, w_nodes ex_islands !! ad1 with
+               | Some n, Some m => WF_b (nd_view n) && WF_b (nd_view m) &&
+                   bool_decide (map ns_id (states (nd_view n)) = [[97]]) && bool_decide (map ns_id (states (nd_view m)) = [[115]; [120]]) &&
+                   bool_decide (map ns_id (states (nd_view (fst (fst (handle_gossip n ad1 (nd_view m) 1050 None))))) = [[97]; [115]; [120]])
+               | _, _ => false end = true) by (vm_compute; reflexivity).
+  rewrite E2, E1 in Hc. rewrite !andb_true_iff, !bool_decide_eq_true in Hc. destruct Hc as [[[[H1 H2] H3] H4] H5].
+  split; [apply WF_b_sound; exact H1|]. split; [apply WF_b_sound; exact H2|]. auto.
+Qed.
+
 Print Assumptions C18_same_view_same_leader.
 Print Assumptions C18_exactly_one_leader.
 Print Assumptions C18_leader_is_least.
 Print Assumptions C18_gossip_is_join.
 Print Assumptions C18_exchange_round.
+Print Assumptions C18_reachable_well_formed.
+Print Assumptions C18_exchange_round_after_any_history.
 Print Assumptions C18_gossip_sent_iff.
 Print Assumptions C18_fixpoint.
 Print Assumptions C18_fixpoint_stable_without_failure_detection_partial.
@@ -281,7 +382,9 @@ Print Assumptions C18_unconditional_refuted.
 Print Assumptions C18_a_healthy_members_churn_refuted.
 Print Assumptions C18_b_removed_member_resurrected_refuted.
 Print Assumptions C18_c_two_leaders_refuted.
+Print Assumptions C18_c2_new_incarnation_not_propagated_refuted.
 Print Assumptions C18_d_leave_not_announced.
 Print Assumptions C18_d_left_node_stays_refuted.
 Print Assumptions C18_e_restart_shadowed_refuted.
+Print Assumptions C18_e2_fresh_id_restart_refuted.
 Print Assumptions C18_f_learned_member_keeps_foreign_lastseen.
